@@ -152,8 +152,17 @@ def random_table_digits(rng, k):
     return "".join(out)
 
 
-def bits_array(bits):
-    return numpy.array([int(c) for c in bits], dtype=int)
+def bits_array(bits, dtype=None):
+    return numpy.array([int(c) for c in bits], dtype=getattr(numpy, dtype) if dtype else int)
+
+
+TWIN_WIDTH = {"uint8": 8, "int8": 8, "int16": 4, "int32": 2}
+
+
+def twin_bits(bits, dtype):
+    """The message whose array of `dtype` has exactly the bytes of the int64 array of `bits` (little endian): each bit
+    followed by width-1 zero bits. A legal message in its own right; equal buffers, different messages."""
+    return "".join(c + "0" * (TWIN_WIDTH[dtype] - 1) for c in bits)
 
 
 def norm_result(value):
@@ -330,9 +339,19 @@ def op_write(op, world, ctx):
     design = world.designs.get(op["design"])
     if design is None:
         return {"out": {"kind": "skipped"}, "res": None}
+    twin = op.get("twin")
+    if twin:
+        # the writer also stores the byte-reinterpretation of this message under a narrower integer dtype (same raw
+        # buffer, another message), before or after it, in the same process: all C04 invariants apply to both writes
+        other = dict(op, bits=twin_bits(op["bits"], twin["dtype"]), bits_dtype=twin["dtype"], twin=None)
+        ctx.stats.inc("probes", "c04:twin-write-" + twin["order"])
+        if twin["order"] == "before":
+            op_write(other, world, ctx)
+            if ctx.violation is not None:
+                return {"out": {"kind": "twin-failed"}, "res": None}
     bits, L, fast = op["bits"], len(op["bits"]), op["fast"]
     table = table_from_digits(op["table"], design.k, op.get("table_dtype")) if op.get("table") else None
-    kwargs = dict(binary_message=bits_array(bits), accessor=design.accessor(world.proxy), start_index=_start(op),
+    kwargs = dict(binary_message=bits_array(bits, op.get("bits_dtype")), accessor=design.accessor(world.proxy), start_index=_start(op),
                   is_faster=fast, vt_length=op.get("vt", 0), shuffles=table)
     nlive = len(design.live)
     row_bound, jumps = encode_bounds(L, nlive)
@@ -352,6 +371,8 @@ def op_write(op, world, ctx):
     rec["strand"], rec["check"] = strand, check
     if ctx.prop == "C04":
         oracle_c04(op, design, out, strand, ctx, row_bound)
+    if twin and twin["order"] == "after" and ctx.violation is None:
+        op_write(other, world, ctx)
     return rec
 
 
